@@ -11,9 +11,9 @@ import (
 )
 
 type crashPoint struct {
-	evIdx  int  // index of the last trace event included (an I/O event), or -1 for "setup end"
-	pos    int  // trace position: events [0,pos) performed
-	ioOrd  int  // ordinal among I/O events
+	evIdx  int // index of the last trace event included (an I/O event), or -1 for "setup end"
+	pos    int // trace position: events [0,pos) performed
+	ioOrd  int // ordinal among I/O events
 	tear   *Tear
 	window bool // inside commit / abort / checkpoint / statement window
 }
@@ -189,10 +189,10 @@ func (cr *CrashRun) featuresAt(pos int, faults []Fault, im *Image) map[string]bo
 }
 
 type crashCheckOpts struct {
-	props     map[string]bool // which properties' violations to keep (others are only counted)
-	rnd       *rng
-	maxImages int
-	nested    int
+	props       map[string]bool // which properties' violations to keep (others are only counted)
+	rnd         *rng
+	maxImages   int
+	nested      int
 	idempotence bool
 	stopAtFirst bool
 	wantKey     string // stop as soon as a violation with this key was found
